@@ -139,3 +139,90 @@ def report(chk, bad, pid_prefix=''):
         items.sort(key=lambda t: (len(t[0]), t[0]))
         case, detail = items[0]
         chk.violation('%s — %s; %d cases' % (key, detail[:400], len(items)), dict(case=case, key=key, detail=detail, count=len(items)))
+
+
+# ---------------------------------------------------------------------------------------------------------------------------
+# Coq side of C02 / C03: regenerate the reverse table, prove, and tie check_imm_size / emission to the implementation
+def prove_codec(chk):
+    """regenerates gen/AsmTables.v (and gen/X86Tables.v) from the working tree, builds props/<pid>.v; when an obligation fails,
+    searches the dumped tables for the concrete entry that breaks it"""
+    import dump_asm
+    try: d = dump_asm.generate()
+    except Exception as e:
+        chk.violation('dump of the assembler tables failed: %s' % str(e)[:300], dict(dump='harness/dump_asm.py', error=str(e)[:2000]), found_input=False)
+        return False
+    if chk.prove(['gen/AsmTables.vo']): return True
+    w = reverse_table_witness(d)
+    if w: chk.violation('the reverse ModRM/SIB table breaks the codec obligation: %s' % w['why'], dict(chk.broken_summary(), **w))
+    else: chk.violation('proof obligations of props/%s.v no longer check' % chk.pid, chk.broken_summary(), found_input=False)
+    return False
+
+def reverse_table_witness(d):
+    """Python re-statement of rev_sound / rev_complete on the dumped tables: returns the first entry that violates it"""
+    def keyd(o): return (bool(o['ad']), o['imm'], tuple(tuple(x) for x in o['regs']))
+    IMMK = {'u08': 0, 's08': 1, 'u16': 2, 'u32': 4}
+    listed = {}
+    for key, vals in d['fd_afs']:
+        ad = None; imm = None; txt = None; regs = []
+        for k, v in key:
+            if k == 'ad': ad = v
+            elif k == 'imm': imm = IMMK.get(v, v)
+            elif k == 'txt': txt = v
+            elif k.isdigit(): regs.append((int(k), int(v)))
+        regs.sort(); kk = (bool(ad), imm, tuple(regs))
+        tbl = d['db_afs']
+        if len(regs) == 1 and 64 <= regs[0][0] < 72: tbl = d['db_afs_mm']
+        if len(regs) == 1 and 80 <= regs[0][0] < 88: tbl = d['db_afs_xmm']
+        for m, sb in vals:
+            listed.setdefault((m, sb), []).append((kk, txt))
+            if m & 56: return dict(why='entry (ModRM 0x%02x, SIB %s) of key %s has a non-empty reg field: forge_opc ORs it into the opcode, giving the encoding of another register' % (m, sb, key), entry=[m, sb], key=key)
+            e = tbl[m]
+            if 'sib' in e:
+                if sb is None: return dict(why='ModRM 0x%02x needs a SIB byte but the entry of key %s has none' % (m, key), entry=[m, sb], key=key)
+                a = d['sib'][e['sib']][sb]
+            else:
+                if sb is not None: return dict(why='ModRM 0x%02x takes no SIB byte but the entry of key %s has one' % (m, key), entry=[m, sb], key=key)
+                a = e
+            if keyd(a) != kk or (txt is not None and a['txt'] != txt):
+                return dict(why='entry (ModRM 0x%02x, SIB %s) listed for the address form %s decodes to %s' % (m, sb, key, a), entry=[m, sb], key=key, decodes_to=a)
+    for m in range(256):
+        if m & 56: continue
+        e = d['db_afs'][m]
+        for sb in (range(256) if 'sib' in e else [None]):
+            a = d['sib'][e['sib']][sb] if 'sib' in e else e
+            got = listed.get((m, sb), [])
+            if not any(k == keyd(a) and t is None for k, t in got):
+                return dict(why='ModRM 0x%02x SIB %s decodes to %s but is not offered for that address form: the canonical encoding cannot be reproduced' % (m, sb, a), entry=[m, sb], decodes_to=a)
+    return None
+
+def codec_tie(chk):
+    """check_imm_size and the struct.pack emission: model (Asm.v, extracted) vs implementation, boundary values x kinds"""
+    try: build_model()
+    except BuildBroken as e:
+        chk.violation('extracted model does not build: ' + e.what, dict(log_tail=e.log[-3000:]), found_input=False); return 0
+    vals = set()
+    for w in (7, 8, 15, 16, 31, 32, 33):
+        for d_ in (-2, -1, 0, 1, 2):
+            vals.add((1 << w) + d_); vals.add(-(1 << w) + d_)
+    vals |= set(BOUNDARY) | set(range(-300, 301, 7)) | {0x12345678, -0x12345678, 0x7fffffff, 0x80000000, 0xffffffff, 0xffffff80, 0xffff8000, 0x1ffffffff}
+    rng = chk.rng
+    vals |= {rng.randrange(-(1 << 33), 1 << 33) for _ in range(400)} | {rng.randrange(-70000, 70000) for _ in range(400)}
+    lines_i = []; lines_m = []
+    for v in sorted(vals):
+        for k in range(6):
+            lines_i.append('cis %d 0 %d' % (v, k)); lines_m.append('cis %d 0 %d' % (v, k))
+            lines_i.append('cis %d 1 %d' % (v, k)); lines_m.append('cis %d 1 %d' % (v % 65536, k))     # a 16-bit modint holds v mod 2^16
+    impl = run_impl('impl_asmcodec.py', lines_i, shards=4)
+    model = run_model('asm', lines_m)
+    bad = [(l, m, i) for l, m, i in zip(lines_i, model, impl) if m != i]
+    if bad:
+        l, m, i = bad[0]
+        t = l.split(); v = int(t[1]); kind = ['u08', 's08', 'u16', 's16', 'u32', 's32'][int(t[3])]
+        # the property fails on this input if the implementation accepts a value the form cannot represent
+        found = False
+        if i != 'None' and not i.startswith('E'):
+            r = int(i.split()[0]); bits = [8, 8, 16, 16, 32, 32][int(t[3])]
+            found = (r - v) % (1 << bits) != 0
+        chk.violation('correspondence Asm.v/check_imm_size vs ia32_arch.check_imm_size broken on %d inputs, e.g. check_imm_size(%d%s, %s): model %s, implementation %s' % (len(bad), v, ' as uint16' if t[2] == '1' else '', kind, m, i),
+                      dict(correspondence='Asm.v check_imm_size/emit vs ia32_arch.check_imm_size + struct.pack', case=l, model=m, impl=i, count=len(bad)), found_input=found)
+    return len(lines_i)
